@@ -131,36 +131,92 @@ pub fn dump_case(idx: u64, items: &[Item], opt: u64, flags: Value) -> Value {
     let short_writes = opt % 3 == 2;
     let sink = || if short_writes { SharedBuf::chunked(13) } else { SharedBuf::default() };
 
+    // every other case the reporters' options arrive the way a user's do: as command-line arguments
+    // parsed by the crate's own `clap` definitions (`-v` counts, `--color`, `--format json`,
+    // `--show-output`, `--report-time`, `--junit-v`), the constructors getting the neutral values
+    let via_argv = (opt / 7) % 2 == 1;
+    let basic_cli = move |color: Coloring| -> (u8, writer::basic::Cli) {
+        if via_argv {
+            type O = cucumber::cli::Opts<cucumber::cli::Empty, cucumber::cli::Empty, writer::basic::Cli, cucumber::cli::Empty>;
+            let mut argv = vec!["prog".to_owned(), format!("-{}", "v".repeat(usize::from(verbosity) + 1))];
+            argv.extend(["--color".to_owned(), if matches!(color, Coloring::Always) { "always" } else { "never" }.to_owned()]);
+            let o = <O as cucumber::cli::Parser>::try_parse_from(&argv).unwrap_or_else(|e| panic!("the crate's CLI rejected {argv:?}: {e}"));
+            (0, o.writer)
+        } else {
+            (verbosity, writer::basic::Cli { verbose: 0, color })
+        }
+    };
     let basic = guarded(|| {
         let buf = sink();
-        let mut w = writer::Basic::new::<TW>(buf.clone(), Coloring::Never, verbosity);
-        feed_cloning(&mut w, items, &writer::basic::Cli { verbose: 0, color: Coloring::Never }, clone_at);
+        let (v, cli) = basic_cli(Coloring::Never);
+        let mut w = writer::Basic::new::<TW>(buf.clone(), if via_argv { Coloring::Auto } else { Coloring::Never }, v);
+        feed_cloning(&mut w, items, &cli, clone_at);
         buf.text()
     });
     // the terminal reporter with coloring on: transient lines for started steps, erased again
     // (cursor up + erase line) when the result is known
     let colored = guarded(|| {
         let buf = sink();
-        let mut w = writer::Basic::new::<TW>(buf.clone(), Coloring::Always, verbosity);
-        feed_cloning(&mut w, items, &writer::basic::Cli { verbose: 0, color: Coloring::Always }, clone_at);
+        let (v, cli) = basic_cli(Coloring::Always);
+        let mut w = writer::Basic::new::<TW>(buf.clone(), if via_argv { Coloring::Auto } else { Coloring::Always }, v);
+        feed_cloning(&mut w, items, &cli, clone_at);
         buf.text()
     });
+    // ... and constructed on a terminal of a known, narrow width (the reporter asks for the width of the
+    // standard output when it is built): long transient lines wrap, and all their rows are erased
+    let cols: u16 = [24, 31, 40, 57, 80][(opt / 3 % 5) as usize];
+    #[cfg(target_os = "linux")]
+    let narrow = guarded(|| {
+        let buf = sink();
+        let (v, cli) = basic_cli(Coloring::Always);
+        // (the standard output stays that terminal for the whole run: the reporter looks at it again
+        // whenever a `--color` option is applied)
+        let ran = crate::pty::with_stdout_on_terminal(cols, || {
+            let mut w = writer::Basic::new::<TW>(buf.clone(), if via_argv { Coloring::Auto } else { Coloring::Always }, v);
+            feed_cloning(&mut w, items, &cli, clone_at);
+        });
+        match ran {
+            Some(()) => buf.text(),
+            None => "\u{0}no terminal".to_owned(),
+        }
+    });
+    #[cfg(not(target_os = "linux"))]
+    let narrow = json!({"ok": "\u{0}no terminal"});
     // the terminal reporter as `Basic::stdout()` builds it: with the summary at the end
     let summarized = guarded(|| {
         use cucumber::WriterExt as _;
         let buf = sink();
-        let mut w = writer::Basic::new::<TW>(buf.clone(), Coloring::Never, verbosity).summarized();
-        feed_cloning(&mut w, items, &writer::basic::Cli { verbose: 0, color: Coloring::Never }, clone_at);
+        let (v, cli) = basic_cli(Coloring::Never);
+        let mut w = writer::Basic::new::<TW>(buf.clone(), if via_argv { Coloring::Auto } else { Coloring::Never }, v).summarized();
+        feed_cloning(&mut w, items, &cli, clone_at);
         buf.text()
     });
     let libtest = guarded(|| {
         let buf = sink();
         let mut w = writer::Libtest::<TW, SharedBuf>::new(buf.clone());
-        let cli = writer::libtest::Cli {
-            format: None,
-            show_output,
-            report_time: report_time.then_some(writer::libtest::ReportTime::Plain),
-            nightly: None,
+        let cli = if via_argv {
+            type O = cucumber::cli::Opts<cucumber::cli::Empty, cucumber::cli::Empty, writer::libtest::Cli, cucumber::cli::Empty>;
+            let mut argv = vec!["prog".to_owned(), "--format".to_owned(), "json".to_owned()];
+            if show_output {
+                argv.push("--show-output".to_owned());
+            }
+            if report_time {
+                // (a bare `--report-time` is rejected by the crate's CLI: `default_missing_value` without
+                // `num_args(0..=1)`; outside the 20 properties, noted in DESIGN.md)
+                if opt % 2 == 0 {
+                    argv.extend(["--report-time".to_owned(), "plain".to_owned()]);
+                } else {
+                    argv.push("--report-time=plain".to_owned());
+                }
+            }
+            <O as cucumber::cli::Parser>::try_parse_from(&argv).unwrap_or_else(|e| panic!("the crate's CLI rejected {argv:?}: {e}")).writer
+        } else {
+            writer::libtest::Cli {
+                format: None,
+                show_output,
+                report_time: report_time.then_some(writer::libtest::ReportTime::Plain),
+                nightly: None,
+            }
         };
         feed_cloning(&mut w, items, &cli, clone_at);
         buf.text()
@@ -173,17 +229,25 @@ pub fn dump_case(idx: u64, items: &[Item], opt: u64, flags: Value) -> Value {
     });
     let junit = guarded(|| {
         let buf = sink();
-        let mut w = writer::JUnit::<TW, SharedBuf>::new(buf.clone(), verbosity.min(1));
-        feed_cloning(&mut w, items, &writer::junit::Cli { verbose: None }, clone_at);
+        let (v, cli) = if via_argv {
+            type O = cucumber::cli::Opts<cucumber::cli::Empty, cucumber::cli::Empty, writer::junit::Cli, cucumber::cli::Empty>;
+            let argv = ["prog".to_owned(), "--junit-v".to_owned(), verbosity.min(1).to_string()];
+            (0, <O as cucumber::cli::Parser>::try_parse_from(&argv).unwrap_or_else(|e| panic!("the crate's CLI rejected {argv:?}: {e}")).writer)
+        } else {
+            (verbosity.min(1), writer::junit::Cli { verbose: None })
+        };
+        let mut w = writer::JUnit::<TW, SharedBuf>::new(buf.clone(), v);
+        feed_cloning(&mut w, items, &cli, clone_at);
         buf.text()
     });
     json!({
         "case_index": idx,
-        "opts": {"verbosity": verbosity, "show_output": show_output, "report_time": report_time, "cloned_at": clone_at, "short_writes": short_writes},
+        "opts": {"verbosity": verbosity, "show_output": show_output, "report_time": report_time, "cloned_at": clone_at, "short_writes": short_writes, "options_from_argv": via_argv},
         "flags": flags,
         "facts": facts(&norm),
         "basic": basic, "libtest": libtest, "json": jsonr, "junit": junit,
         "colored": colored,
+        "narrow": narrow, "narrow_cols": cols,
         "summarized": summarized, "expected_summary": crate::oracles_stream::expected_summary(items),
     })
 }
